@@ -206,6 +206,14 @@ def _none_case(other):
         r2 = nsf.neutron_scattering(f2, density=rho, wavelength=lam)
         E.fact('none_triple_reordered', tuple(r2) == (None, None, None), note=repr(r2)[:80])
         E.fact('has_sld_false', not nod.neutron.has_sld())
+        # the atom queried directly: every documented entry point reports "no data" as a triple of None
+        d1 = nod.neutron.sld(wavelength=lam)
+        E.fact('direct_sld_none_triple', isinstance(d1, tuple) and d1 == (None, None, None), note=repr(d1)[:80])
+        d2 = nod.neutron.scattering(wavelength=lam)
+        E.fact('direct_scattering_none_triple', isinstance(d2, tuple) and d2 == (None, None, None), note=repr(d2)[:80])
+        if nod.density is not None:      # (without a density the calculation legitimately asks for one)
+            d3 = nsf.neutron_scattering(nod, wavelength=lam)
+            E.fact('direct_query_none_triple', tuple(d3) == (None, None, None), note=repr(d3)[:80])
     return h
 
 
